@@ -118,7 +118,16 @@ func (fr *frame) siteAt(pos token.Pos) string {
 }
 
 func (fr *frame) goPanic(class, msg string) {
-	panic(&GoPanic{Class: class, Site: fr.site(), Msg: msg})
+	panic(&GoPanic{Class: class, Site: fr.site(), Msg: msg, Stack: fr.stack()})
+}
+
+func (fr *frame) stack() string {
+	var sb strings.Builder
+	for f, n := fr, 0; f != nil && n < 14; f, n = f.caller, n+1 {
+		sb.WriteString(f.fn.Name())
+		sb.WriteString(" <- ")
+	}
+	return sb.String()
 }
 
 // require records the implicit obligation cond (no runtime panic of class)
